@@ -297,9 +297,123 @@ pub fn ops_note(ops: &[u64]) -> String {
             2 => "peek",
             3 => "finish",
             4 => "write_all",
+            5 => "write_n",
             _ => "?",
         };
         s.push_str(&format!("{}({}) ", name, p.get(1).unwrap_or(&0)));
     }
     s
+}
+
+/// Adversarial "train-then-surprise" stream: hundreds of matches train every
+/// node on the path of one final match *against* it (deepest node first, so
+/// that each node's most recent updates are the adverse ones); the final match
+/// then needs 10-16 input bytes on its own — the regime the streaming decoder's
+/// 20-byte look-ahead exists for. Always size-bounded or marker per `marker`.
+pub fn gen_long_symbol(t: &mut Tape, marker: u64) -> LzmaBuilt {
+    let props = gen::draw_props(t, false);
+    let dict_hdr: u32 = [0x0010_0000u32, 0x0080_0000, 0xFFFF_FFFF, 0x0002_0000][t.below(4) as usize];
+    let dict = dict_hdr as u64;
+    let mut enc = RefEnc::new(props, dict);
+    let mut ps = gen::ProgStats::default();
+    // the surprise
+    let hi_b = t.below(256) as u32; // len - 18
+    let slot_b = 24 + t.below(4) as u32; // d in [4096, 16383]
+    let nd_b = (slot_b >> 1) - 1;
+    let base_b = (2 | (slot_b & 1)) << nd_b;
+    let rem_b = t.below(1u64 << nd_b) as u32;
+    let d_b = base_b + rem_b; // distance - 1
+    let align_b = d_b & 15;
+    let reps = t.range(50, 150);
+    // some literals first so that short distances are legal
+    let n0 = t.range(150, 400);
+    for _ in 0..n0 {
+        let s = Sym::Lit(t.byte());
+        ps.note(s, &enc.model, enc.state);
+        let _ = enc.encode(s);
+    }
+    for phase in 0..8u32 {
+        let i = 7 - phase; // len-tree depth trained against
+        let j = [5u32, 4, 3, 2, 1, 1, 1, 1][phase as usize]; // slot-tree depth
+        let k = [3u32, 2, 1, 0, 0, 0, 0, 0][phase as usize]; // align depth (coded order)
+        for _ in 0..reps {
+            // length: share the top i bits with B, flip bit (7-i), low bits zero
+            let keep = if i == 0 { 0 } else { hi_b >> (8 - i) << (8 - i) };
+            let flip = ((hi_b >> (7 - i)) & 1) ^ 1;
+            let hi_t = keep | (flip << (7 - i));
+            let len_t = (hi_t & 0xFF) + 18;
+            // slot: share the top j bits, flip bit (5-j), low bits: prefer >= 14
+            let keep_s = slot_b >> (6 - j) << (6 - j);
+            let flip_s = ((slot_b >> (5 - j)) & 1) ^ 1;
+            let mut slot_t = keep_s | (flip_s << (5 - j));
+            if slot_t < 14 {
+                slot_t |= 14 & ((1 << (5 - j)) - 1).max(0);
+                if slot_t < 14 {
+                    slot_t = 14 + (slot_t & 1);
+                }
+            }
+            let nd_t = (slot_t >> 1) - 1;
+            let base_t = (2 | (slot_t & 1)) << nd_t;
+            // align: share the first k coded bits (low bits), flip bit k
+            let mask = (1u32 << k) - 1;
+            let al_t = (align_b & mask) | ((((align_b >> k) & 1) ^ 1) << k);
+            let mut d_t = base_t | al_t;
+            let avail = enc.model.avail() as u64;
+            if (d_t as u64 + 1) > avail {
+                // not yet legal: use a short distance instead (trains other slots)
+                d_t = (avail.saturating_sub(1)).min(100) as u32;
+            }
+            let s = Sym::Match {
+                dist: d_t + 1,
+                len: len_t,
+            };
+            if enc.model.legal(s) {
+                ps.note(s, &enc.model, enc.state);
+                let _ = enc.encode(s);
+            }
+            // a few literals so that the surprise arrives in a literal-trained state
+            if t.below(3) == 0 {
+                let s = Sym::Lit(t.byte());
+                ps.note(s, &enc.model, enc.state);
+                let _ = enc.encode(s);
+            }
+        }
+    }
+    for _ in 0..t.below(5) {
+        let s = Sym::Lit(t.byte());
+        ps.note(s, &enc.model, enc.state);
+        let _ = enc.encode(s);
+    }
+    let b = Sym::Match {
+        dist: d_b + 1,
+        len: hi_b + 18,
+    };
+    if enc.model.legal(b) {
+        ps.note(b, &enc.model, enc.state);
+        let _ = enc.encode(b);
+    }
+    for _ in 0..t.below(4) {
+        let s = Sym::Lit(t.byte());
+        ps.note(s, &enc.model, enc.state);
+        let _ = enc.encode(s);
+    }
+    let marker = match marker {
+        1 => true,
+        2 => false,
+        _ => t.below(2) == 1,
+    };
+    if marker {
+        enc.encode_end_marker();
+    }
+    let payload = enc.finish_segment();
+    LzmaBuilt {
+        props,
+        dict_hdr,
+        dict,
+        payload,
+        expect: std::mem::take(&mut enc.model.out),
+        marker,
+        trace: std::mem::take(&mut enc.trace),
+        ps,
+    }
 }
